@@ -620,7 +620,7 @@ func doReplay(b *build, prop, path string) int {
 			fatal2("replay: %s", r.infra)
 		}
 		for _, v := range r.res.Violations {
-			if v.Sig == rp.Signature {
+			if sigFamily(v.Sig) == sigFamily(rp.Signature) {
 				fmt.Printf("replay reproduces (execution %d of at most %d): %s %s\n%s\n", k+1, tries, v.Oracle, v.Sig, v.Detail)
 				fmt.Printf("VIOLATION property=%s replay=%s\n", prop, path)
 				return 1
